@@ -204,9 +204,19 @@ def h_string(params, vals, ctx):
 
 
 def h_rawbyte(params, vals, ctx):
+    """<n> raw bytes between string chunks; optionally a symbolic (possibly multi-byte) character in front."""
     v = vals["V"]
-    text = params["dir"] + ' "a" <{V}> "b"\n'
-    o = assemble([("a.mac", text)], vals, route=ctx.route, charset=params.get("charset", "bk"))
+    cs = params.get("charset", "bk")
+    lead = "a"
+    if params.get("symlead"):
+        ch = vals["S_1"]
+        require(len(ch) == 1)
+        cp = ord(ch)
+        require(cp < 0xD800 or cp >= 0xE100)
+        require(in_windows(cp, [(0x20, 0x22), (0x23, 0x27), (0x28, 0x2F), (0x30, 0x5C), (0x5D, 0x100), (0x7C0, 0x840), (0xFFC0, 0x10040)]))
+        lead = ch
+    text = params["dir"] + (' "{S_1}" <{V}> "b"\n' if params.get("symlead") else ' "a" <{V}> "b"\n')
+    o = assemble([("a.mac", text)], vals, route=ctx.route, charset=cs)
     ctx.observe_outcome(o)
     accept = 0 <= v < 256
     ctx.reach(accept)
@@ -215,12 +225,17 @@ def h_rawbyte(params, vals, ctx):
     if o.status != "ok" or o.errors:
         return False
     code = o.code
+    head = lead.encode(cs)
+    n = len(head)
     tail = 1 if params["dir"] == ".asciz" else 0
-    if len(code) != 3 + tail:
+    if len(code) != n + 2 + tail:
         return False
-    if tail and code[3] != 0:
+    if tail and code[n + 2] != 0:
         return False
-    return code[0] == 97 and code[1] == v and code[2] == 98
+    for i in range(n):
+        if code[i] != head[i]:
+            return False
+    return code[n] == v and code[n + 1] == 98
 
 
 ESCAPES = [
@@ -293,6 +308,8 @@ def obligations(tier, seed):
                   vars={"S_1": "str", "S_2": "str"}, timeout=900, pre="two symbolic characters around the UTF-8 length boundaries"))
     for d in (".ascii", ".asciz"):
         obs.append(Ob(oid=f"rawbyte/{d}", harness=HR, params={"dir": d}, vars={"V": "int"}, timeout=120, pre="every integer V"))
+        obs.append(Ob(oid=f"rawbyte/{d}/utf-8-symbolic-lead", harness=HR, params={"dir": d, "charset": "utf-8", "symlead": True},
+                      vars={"V": "int", "S_1": "str"}, timeout=600, pre="every integer V; one symbolic (1..4 byte) character before the raw byte"))
     obs.append(Ob(oid="ascii/escapes", harness=HE, params={}, vars={"V": "int"}, timeout=300,
                   note="concrete side check of escape forms + one symbolic raw byte"))
     return obs
